@@ -966,7 +966,7 @@ def obligations(tier):
     # Solid
     if not q:     # ~60 s per path (a face block is one long written piece): thorough tier only
         obls.append(Obl("solid.text", MOD, "h_solid_text", slices=[{"n": n, "kind": k} for n in ((0,) if q else (0, 1)) for k in ("wedge", "prism")],
-                        budget_s=B if q else 3000, per_path_s=60 if q else 300, desc="Solid export->parse->export: symbolic face material; planes, UV axes, rotation, Strata point data concrete",
+                        budget_s=B if q else 4000, per_path_s=60 if q else 900, desc="Solid export->parse->export: symbolic face material; planes, UV axes, rotation, Strata point data concrete",
                         bound="exact length per slice, full Unicode"))
         obls.append(Obl("solid.witness", MOD, "h_solid_text_w", slices=[{"n": 0 if q else 1, "kind": "wedge"}], budget_s=120 if q else 900, per_path_s=60 if q else 300, witness=True))
     obls.append(Obl("solid.ids", MOD, "h_solid_ids", slices=[{"part": 0}, {"part": 1}], budget_s=B * 3, per_path_s=60,
